@@ -55,7 +55,10 @@ class Harness:
         return self.keys[i % len(self.keys)]
 
     def karr(self, ks, as_):
-        return list(ks) if as_ == "list" and ks else np.array(ks, dtype=self.dt)
+        if as_ == "tuple" and len(ks) >= 2:
+            self.labels.append("keys-as-tuple")
+            return tuple(ks)
+        return list(ks) if as_ in ("list", "tuple") and ks else np.array(ks, dtype=self.dt)
 
     def absent(self, salt):
         lo, hi = gen.int_range(self.dt)
@@ -249,7 +252,9 @@ class Harness:
             ks = [k for k in ks if abs(k) < 2**62]
             self.labels.append("getmiss:wide-absent")
         ks.insert(pos % (len(ks) + 1), a)
-        got = lib(lambda: tab[np.array(ks, dtype=np.int64 if wide else self.dt)])
+        spell = "array" if wide else ["array", "list", "tuple"][(salt + pos) % 3]
+        q = np.array(ks, dtype=np.int64) if wide else self.karr(ks, spell)
+        got = lib(lambda: tab[q])
         if got.ok:
             raise Violation("lookup-with-absent-key:answered", keys=ks, absent=a, got=got.brief(),
                             table="scalar-valued" if not hasattr(getattr(tab, "_values", None), "ravel") else "array-valued")
@@ -375,7 +380,7 @@ def machine(tier, sink):
         def get1(self, which, i, as_np):
             self.do(["get1", which, i, as_np])
 
-        @rule(which=WHICH, idx=st.lists(IDX, max_size=8), as_=st.sampled_from(["array", "list"]))
+        @rule(which=WHICH, idx=st.lists(IDX, max_size=8), as_=st.sampled_from(["array", "list", "tuple"]))
         def getv(self, which, idx, as_):
             self.do(["getv", which, idx, as_])
 
@@ -383,7 +388,7 @@ def machine(tier, sink):
         def set1(self, which, i, v, as_np):
             self.do(["set1", which, i, v, as_np])
 
-        @rule(which=WHICH, idx=st.lists(IDX, min_size=1, max_size=12), v=VAL, as_=st.sampled_from(["array", "list"]))
+        @rule(which=WHICH, idx=st.lists(IDX, min_size=1, max_size=12), v=VAL, as_=st.sampled_from(["array", "list", "tuple"]))
         def setv(self, which, idx, v, as_):
             self.do(["setv", which, idx, v, as_])
 
